@@ -13,7 +13,7 @@ from __future__ import annotations
 
 from hplmc import absyn, impl, props
 from hplmc.checks import c06, c09, c11, c13
-from hplmc.core import Result, chunks
+from hplmc.core import Result, Watchdog, chunks
 from hplmc.ref import eval as E
 from hplmc.ref import types as T
 
@@ -37,6 +37,8 @@ def function_matrix():
         ('set', (num(1), num(2))), ('set', (x, num(2))), ('set', (num(1),)), ('set', (x,)), ('set', (x, y, num(1))),
         ('range', num(0), num(3), False, False), ('range', num(3), num(1), True, True), ('range', num(1), num(1), True, True), ('range', x, num(3), False, True), ('range', num(0), x, True, False),
         tf('xs'), alias_field('A', 'xs'), ('un', '-', x), ('bin', '+', x, num(1)), ('bin', '/', num(1), num(2)),
+        ('range', num(0), ('lit', '18446744073709551615', 18446744073709551615), False, False), ('range', ('un', '-', ('lit', '9223372036854775808', 9223372036854775808)), ('lit', '9223372036854775807', 9223372036854775807), False, True),
+        ('lit', '9007199254740993', 9007199254740993),
     ]
     out = []
     for f in c06.FUNCTIONS:
@@ -123,7 +125,11 @@ def check_object(obj, label, r):
     def call(name, fn, allowed=lambda e: False, expect=None):
         r.count('transitions')
         try:
-            res = fn()
+            with Watchdog(20):
+                res = fn()
+        except Watchdog.Timeout:
+            problems.append((f'{name} did not terminate', f'{label}: no result within 20 s'))
+            return None
         except RecursionError:
             problems.append((f'{name} raised RecursionError', label))
             return None
@@ -206,7 +212,8 @@ def check_object(obj, label, r):
         partial = c11.partial_alias(absyn.strip_types(lin))
         r.count('transitions')
         try:
-            res = R.canonical_form(obj)
+            with Watchdog(20):
+                res = R.canonical_form(obj)
             why = props_ok(res)
             if why:
                 problems.append((f'canonical_form: {why}', label))
@@ -360,7 +367,7 @@ def replay(w):
 def describe(tier):
     b = bounds(tier)
     return {
-        'rule': f"(a) every accepted Bool/Num/Str term with <= {b['nodes']} nodes of the C06 grammar (every expression node kind) as expression and predicate; (b) each of the 27 built-in functions x 27 argument shapes (number / string / bool literals, fields, alias fields, message field, variable, sets of literals / with fields / singleton, ranges incl. reversed, empty and with non-literal bounds, arrays, arithmetic) alone and in 16 contexts (either side of 3 comparisons, arithmetic, unary minus, conjunction with an alias atom, set member); (b') every term with <= 5 (thorough 6) nodes of the boolean + quantifier fragment with alias atoms (the shapes the quantifier-splitting code of split_and / refactor_reference works on); (b'') the shape-directed families of C08; (c) every property skeleton (widths <= {b['max_width']}) x 6 decorations. Calls: simplify, split_and, refactor_reference (A, C), replace_this_with_var (Z, A), replace_var_with_this (A, v), get_conjuncts, get_disjuncts, canonical_form. A state = one accepted AST; a transition = one call.",
+        'rule': f"(a) every accepted Bool/Num/Str term with <= {b['nodes']} nodes of the C06 grammar (every expression node kind) as expression and predicate; (b) each of the 27 built-in functions x 30 argument shapes (number / string / bool literals, fields, alias fields, message field, variable, sets of literals / with fields / singleton, ranges incl. reversed, empty and with non-literal bounds, arrays, arithmetic) alone and in 16 contexts (either side of 3 comparisons, arithmetic, unary minus, conjunction with an alias atom, set member); (b') every term with <= 5 (thorough 6) nodes of the boolean + quantifier fragment with alias atoms (the shapes the quantifier-splitting code of split_and / refactor_reference works on); (b'') the shape-directed families of C08; (c) every property skeleton (widths <= {b['max_width']}) x 6 decorations. Calls: simplify, split_and, refactor_reference (A, C), replace_this_with_var (Z, A), replace_var_with_this (A, v), get_conjuncts, get_disjuncts, canonical_form. A state = one accepted AST; a transition = one call.",
         'bounds': b,
         'exhaustive': True,
         'assumptions': [
